@@ -18,6 +18,19 @@ def guarded_check(solver, timeout_ms):
         t.cancel()
 
 
+def _has_quantifier(e):
+    stack, seen = [e], set()
+    while stack:
+        x = stack.pop()
+        if x.get_id() in seen:
+            continue
+        seen.add(x.get_id())
+        if z3.is_quantifier(x):
+            return True
+        stack.extend(x.children())
+    return False
+
+
 class PathEnd(Exception):
     """this path ends here (infeasible, or cut at a loop head after the invariant was re-proved)"""
 
@@ -62,6 +75,10 @@ class Ctx:
         if z3.is_true(z):
             return
         self.pc.append(z)
+        if getattr(self, "qf_feasibility", False) and _has_quantifier(z):
+            # opt-in (Contract.qf_feasibility): quantified hypotheses are kept for the obligations but not used
+            # to prune branches (pruning with fewer hypotheses only keeps more paths)
+            return
         self.solver.add(z)
 
     def _feasible(self, cond):
